@@ -24,6 +24,11 @@ MODES = {
     "closes_stdin_exit0": ('exec 0<&-; printf "%s"; exit 0' % FORMATTED.replace("\n", "\\n"), True, True, ("code", 0), FORMATTED),
     "never_reads_stdin_exit1": ("sleep 0.2; exit 1", True, True, ("code", 1), ""),
     "never_reads_stdin_exit0_empty": ("exit 0", True, True, ("code", 0), ""),
+    # formatters that write while (or before) they read: the parent must read the child's stdout while it feeds its stdin
+    "stream_cat_exit0": ("cat; exit 0", True, True, ("code", 0), ("SRC",)),
+    "stream_cat_exit1": ("cat; exit 1", True, True, ("code", 1), ("SRC",)),
+    "big_output_before_reading_exit0": ("head -c 200000 /dev/zero | tr '\\000' x; cat >/dev/null; exit 0", True, True, ("code", 0), ("BIG", 200000)),
+    "big_output_never_reads_exit1": ("head -c 200000 /dev/zero | tr '\\000' x; exit 1", True, True, ("code", 1), ("BIG", 200000)),
     "absent_path": (None, False, True, ("code", 0), ""),
     "directory": ("DIR", False, True, ("code", 0), ""),
     "not_executable": ("NOEXEC", False, True, ("code", 0), ""),
@@ -32,7 +37,7 @@ MODES = {
 
 def run(ck):
     quick = ck.tier == "quick"
-    ck.coverage["rule"] = ("every enumerated fault mode of the formatter child (16 modes: absent / directory / not executable, exit 0/1/2/3/101/255 with nothing / partial / full output, "
+    ck.coverage["rule"] = ("every enumerated fault mode of the formatter child (20 modes: streaming formatters that write while or before they read, absent / directory / not executable, exit 0/1/2/3/101/255 with nothing / partial / full output, "
                            "SIGKILL, SIGSEGV, invalid UTF-8 with exit 0 and 1, stdin closed early, stdin never read) x {small, multi-MB} bindings x {header comment on/off, raw lines}; "
                            "token comparison of the three formatters on repository headers; distinct by (mode, size, prefix options)")
     ck.trusted += ["harness fmt subcommand = Builder::with_rustfmt(fake).generate() + Bindings::write into a Vec",
@@ -68,7 +73,9 @@ def run(ck):
             paths[name] = p
 
         def fmt(formatter, path, nohdr, header, raw):
-            rc, o, e = sh2([exe, "fmt", formatter, enc(path) if path else "-", "1" if nohdr else "0", enc(header)] + [enc(r) for r in raw], timeout=600)
+            rc, o, e = sh2([exe, "fmt", formatter, enc(path) if path else "-", "1" if nohdr else "0", enc(header)] + [enc(r) for r in raw], timeout=300)
+            if rc == 124:
+                return rc, "HANG (no result within 300 s)", e
             return rc, o.strip(), e
         # unformatted source for both sizes (formatter none, no prefix)
         src = {}
@@ -97,15 +104,16 @@ def run(ck):
             ck.nontrivial.add((name, lab, nohdr, len(raw)))
             script, spawn_ok, utf8, status, outb = MODES[name]
             if not o.startswith("OK "):
-                cls = "C15-fatal:" + name
+                cls = ("C15-hang:" if o.startswith("HANG") else "C15-fatal:") + name
                 ck.violation(cls, "formatter fault mode '%s' makes writing the bindings fail (%s)" % (name, o.split(" ")[0]), {"mode": name, "script": script, "size": lab, "result": o[:300], "stderr": e[-300:]})
                 continue
             text = dec(o[3:])
             st = "Code %d%%Z" % status[1] if status[0] == "code" else "Signalled"
             # only the length/hash of big texts goes to Coq: compare by decomposing here, then ask Coq which body the model picks
-            ob = outb if outb is not None else ""
+            # the source and a big output go to Coq as stand-ins (the model only chooses between them)
+            ob = "SRC" if outb == ("SRC",) else "[7; 7; 7; 7]" if isinstance(outb, tuple) else vlib.coq_str(outb if outb is not None else "")
             terms.append("({| spawn_ok := %s; copy_ok := true; out := %s; out_utf8 := %s; status := %s |}, %s, [%s])" % (
-                "true" if spawn_ok else "false", vlib.coq_str(ob), "true" if utf8 else "false", st,
+                "true" if spawn_ok else "false", ob, "true" if utf8 else "false", st,
                 "None" if nohdr else "(Some %s)" % vlib.coq_str(hdr), "; ".join(vlib.coq_str(r) for r in raw)))
             metas.append((name, lab, nohdr, raw, text))
         # model: which body (0 = source, 2 = child's output) and the prefix bytes
@@ -130,7 +138,8 @@ Eval vm_compute in map (fun c => match c with (ch, hd, raw) =>
         for (name, lab, nohdr, raw, text), m in zip(metas, ls[0]):
             which, pref = m[0], bytes(m[1:]).decode("utf-8", "replace")
             script, spawn_ok, utf8, status, outb = MODES[name]
-            expect = pref + (src[lab] if which == 0 else (outb or ""))
+            outs = src[lab] if outb == ("SRC",) else "x" * outb[1] if isinstance(outb, tuple) else (outb or "")
+            expect = pref + (src[lab] if which == 0 else outs)
             if text != expect:
                 mism += 1
                 # is it a property violation (failure not falling back / corrupted text) or a model difference?
